@@ -47,7 +47,7 @@ class Prop(BaseProp):
     HEADLINE = ["cmake_runs", "argv_records_checked", "trees_compared", "failure_cases", "template_checks"]
 
     def n_cases(self, tier):
-        return 48 if tier == "quick" else 900
+        return 96 if tier == "quick" else 1600
 
     def setup_worker(self):
         runner.cminx()
@@ -120,7 +120,7 @@ class Prop(BaseProp):
                 f.write(f'set(CMINX_EXECUTABLE {q(shim)})\ninclude({q(os.path.join(repo_root(), "cmake", "cminx.cmake"))})\n'
                         f'cminx_gen_rst({q(target)} {q(out1)} {" ".join(q(e) for e in extra)})\n'
                         f'file(WRITE {q(marker)} "continued")\n')
-            res.sig = sig_hash([kind, [e if e.startswith("-") else "v" for e in extra]])
+            res.sig = sig_hash([kind, extra, tree.shape()])
             res.nontrivial = kind in ("flat", "nested") or bool(extra)
             p = subprocess.run(["cmake", "-P", drv], capture_output=True, env=env, cwd=sb, timeout=300)
             res.count("cmake_runs")
